@@ -83,6 +83,32 @@ func c05r1(c *Ctx) {
 		// pairs: key = Arguments[i], value = Arguments[i+1], i = 0, 2, 4, …
 		km := argElemRe.FindStringSubmatch(key)
 		vm := argElemRe.FindStringSubmatch(val)
+		// a private copy of the listed value is the listed value — if it is a copy of its own: `append([]byte(nil), v...)` or a
+		// buffer made inside the turn; one buffer carried around the loop is overwritten by the next pair while the account's
+		// storage still holds the slice it was given for the previous one
+		copyNote := ""
+		if vm == nil {
+			if ap, ok := call.Common().Args[1].(*ssa.Call); ok {
+				if bi, ok := ap.Call.Value.(*ssa.Builtin); ok && bi.Name() == "append" && len(ap.Call.Args) == 2 {
+					if m2 := argElemRe.FindStringSubmatch(s.Env.Term(ap.Call.Args[1])); m2 != nil {
+						base := ap.Call.Args[0]
+						if sl, ok := base.(*ssa.Slice); ok {
+							base = sl.X
+						}
+						switch b := base.(type) {
+						case *ssa.Const:
+							if b.Value == nil {
+								vm = m2
+							}
+						case *ssa.MakeSlice:
+							vm = m2
+						case *ssa.Phi:
+							copyNote = "the value stored is a copy made in one buffer that is carried around the loop (" + s.Env.Term(b) + "): the account keeps the slice it is given, so the value stored for one pair is overwritten in place when the next pair is copied"
+						}
+					}
+				}
+			}
+		}
 		pairOK := km != nil && vm != nil && vm[1] == km[1]+" + 1"
 		stride := false
 		if ld, ok := call.Common().Args[0].(*ssa.UnOp); ok {
@@ -179,7 +205,7 @@ func c05r1(c *Ctx) {
 			c.OK(rule, fnn, tag+" [listed pairs]", pos, "key = Arguments[i], value = Arguments[i+1], i = 0,2,4,…")
 		} else {
 			c.FailX(Oblig{Rule: rule, Func: fnn, Construct: tag + " [listed pairs]", Pos: pos, Kind: "violation",
-				Detail: "the written (key, value) is not (Arguments[i], Arguments[i+1]) for i = 0,2,4,…", Expected: "SaveKeyValue(Arguments[i], Arguments[i+1])"})
+				Detail: map[bool]string{true: copyNote, false: "the written (key, value) is not (Arguments[i], Arguments[i+1]) for i = 0,2,4,…"}[copyNote != ""], Expected: "SaveKeyValue(Arguments[i], Arguments[i+1]) — or a copy of the value that is private to the pair"})
 		}
 	}
 }
